@@ -41,8 +41,8 @@ DEGKIND = ["uniform", "mixed", "pruned", "sizes"]
 TOL_VALUE = 1e-9
 TOL_IDENT = 1e-10
 TOL_AVG = 1e-6
-TOL_RADIAL = 1e-7
-TOL_ANGULAR = 1e-7
+TOL_RADIAL = 1e-6
+TOL_ANGULAR = 1e-6
 TOL_GRAD = 1e-6
 RULE = (
     "One 'atom' case = one AtomGrid built through the public constructors (method x radial-grid kind x degree kind are the "
@@ -130,7 +130,7 @@ def setup(ctx):
         # multiplied by r_n^2 w_n (up to 1e21 on Handy/Becke tails).  That floor is computed from the returned spline.
         hlast = float(res.x[-1] - res.x[-2])
         terms = float(np.sum(np.abs(res.c[:, -1]) * hlast ** np.arange(res.c.shape[0] - 1, -1, -1)))
-        floor = 64 * np.finfo(float).eps * terms * 4 * np.pi * float(r[-1] ** 2 * abs(w[-1]))
+        floor = 256 * np.finfo(float).eps * terms * 4 * np.pi * float(r[-1] ** 2 * abs(w[-1]))
         scale = float(np.sum(np.abs(fv * g.weights))) + floor / TOL_AVG + 1e-300
         meas = abs(back - direct) / scale
         ctx.check("spherical-average-integrates-back", subj, meas, TOL_AVG, sig=_ratio_sig(back, direct), detail={"back": back, "integral": direct})
@@ -465,7 +465,7 @@ def _run_atom(ctx, params):
                 continue
             sel = ~on_node if nu == 3 else np.ones(len(P), bool)
             # allowed error: relative to the size of the derivative over the point set + conditioning of the fit
-            floor = 1e-10 * vmax_ray / half**nu  # eps * |values on the stencil| / h^nu, with margin
+            floor = 1e-9 * vmax_ray / half**nu  # eps * |values on the stencil| / h^nu, with margin
             scale = np.max(np.abs(D[nu][sel])) + 1e-300
             en = np.abs(got - D[nu]) / (scale + floor / TOL_RADIAL)
             e = np.max(en[sel])
@@ -494,7 +494,7 @@ def _run_atom(ctx, params):
             names = ["d/dr", "d/dtheta", "d/dphi"]
             for a in range(3):
                 scale = np.max(np.abs(num[a])) + 1e-300
-                floor = 1e-10 * (vmax_ray[dec] / half[dec] if a == 0 else vmax_c * (Kspl + 1.0))
+                floor = 1e-9 * (vmax_ray[dec] / half[dec] if a == 0 else vmax_c * (Kspl + 1.0))
                 en = np.abs(sphd[a] - num[a]) / (scale + floor / TOL_ANGULAR)
                 j = int(np.nanargmax(en)) if np.all(np.isfinite(en)) else 0
                 # which numerical derivative does the reported one look like?  (quantised signature)
@@ -516,7 +516,7 @@ def _run_atom(ctx, params):
             num = blo.cartesian_gradient(Fv, Pd, h)
             gsc = np.max(np.linalg.norm(num, axis=1)) + 1e-300
             # conditioning of the stencil: value rounding eps*|F|/h and coordinate rounding eps*|P|/h relative
-            floor = 1e-12 * Fscale[dec] / h + 32 * np.finfo(float).eps * np.max(np.abs(Pd), axis=1) / h * np.linalg.norm(num, axis=1)
+            floor = 1e-11 * Fscale[dec] / h + 32 * np.finfo(float).eps * np.max(np.abs(Pd), axis=1) / h * np.linalg.norm(num, axis=1)
             en = np.linalg.norm(grad[dec] - num, axis=1) / (gsc + floor / TOL_GRAD)
             j = int(np.nanargmax(en)) if np.all(np.isfinite(en)) else 0
             d = grad[dec][j] - num[j]
